@@ -205,7 +205,7 @@ fn stub_distance(this: LinColor, other: LinColor) -> f32 {
     }
 }
 
-//# kind=complete tier=thorough props=C20,C05 fns=color_sgr_encode,nearest | 256-colour depth (foreground role; the role only selects the 38/48/58 prefix, see c05_face_colour_roles): the index emitted after `38;5` is the xterm index of one of two candidates - cube entry 16 + 36 r + 6 g + b for the per-channel nearest cube levels, or grey-ramp entry 232 + k for the level nearest to the mean of the channels - namely the grey one exactly when the colour metric reports it strictly closer; the metric is asked about exactly these two palette colours (per-channel arg-min is proved by c20_nearest_*, table values by c20_tables_linear_light)
+//# kind=complete tier=thorough props=C20 fns=color_sgr_encode,nearest | 256-colour depth (foreground role; the role only selects the 38/48/58 prefix, see c05_face_colour_roles): the index emitted after `38;5` is the xterm index of one of two candidates - cube entry 16 + 36 r + 6 g + b for the per-channel nearest cube levels, or grey-ramp entry 232 + k for the level nearest to the mean of the channels - namely the grey one exactly when the colour metric reports it strictly closer; the metric is asked about exactly these two palette colours (per-channel arg-min is proved by c20_nearest_*, table values by c20_tables_linear_light)
 #[kani::proof]
 #[kani::unwind(12)]
 #[kani::stub(rasterize::LinColor::distance, stub_distance)]
@@ -251,7 +251,7 @@ fn stub_nearest(v: f32, vs: &[f32]) -> usize {
     }
 }
 
-//# kind=complete tier=quick props=C20,C05 fns=color_sgr_encode | 256-colour depth, modular in `nearest`: the three channels are looked up in the 6-level cube table and the mean (r + g + b) / 3 in the 24-level grey table; the index emitted is 232 + k for the grey answer k when the metric reports the grey candidate strictly closer and 16 + 36 r + 6 g + b for the cube answers otherwise, for every role (38 / 48 / 58 prefix followed by 5)
+//# kind=complete tier=quick props=C20 fns=color_sgr_encode | 256-colour depth, modular in `nearest`: the three channels are looked up in the 6-level cube table and the mean (r + g + b) / 3 in the 24-level grey table; the index emitted is 232 + k for the grey answer k when the metric reports the grey candidate strictly closer and 16 + 36 r + 6 g + b for the cube answers otherwise, for every role (38 / 48 / 58 prefix followed by 5)
 #[kani::proof]
 #[kani::unwind(12)]
 #[kani::stub(rasterize::LinColor::distance, stub_distance)]
